@@ -73,7 +73,7 @@ def simulate(ctx: Ctx, label, c, *, num, depth, seed, shards=None):
 
 def err_key(errors):
     e = errors[0]
-    for k in ("exec_unexpected", "reinit_accepted"):
+    for k in ("exec_unexpected", "reinit_accepted", "initial_method_skipped"):
         if e.startswith(k):
             return k
     return "harness|" + e.split()[0]
